@@ -37,6 +37,9 @@ class BloomFilter(object):
         self.tweak = tweak
 
     def add_item(self, item_bytes: bytes) -> None:
+        if self.bit_count == 0:
+            # an empty filter has no bits to set (and matches everything)
+            return
         for hash_index in range(self.hash_function_count):
             seed = hash_index * 0xFBA4C795 + self.tweak
             self.set_bit(murmur3(item_bytes, seed=seed) % self.bit_count)
